@@ -10,6 +10,7 @@ import (
 	"path/filepath"
 	"regexp"
 	"runtime"
+	"runtime/debug"
 	"sort"
 	"strconv"
 	"sync"
@@ -59,6 +60,9 @@ type Run struct {
 
 // Start parses the command line: `<bin> quick|thorough` or `<bin> --replay <file>`.
 func Start(id, level string) *Run {
+	// the checks allocate many short-lived objects on all cores: a small heap makes the GC run
+	// continuously and serialises the workers
+	debug.SetGCPercent(1600)
 	r := &Run{ID: id, Level: level, Tier: "quick", start: time.Now(),
 		viol: map[string][]Violation{}, violCount: map[string]int{}}
 	if t := os.Getenv("VERIF_TIER"); t == "quick" || t == "thorough" {
@@ -93,8 +97,11 @@ func Start(id, level string) *Run {
 		}
 	}
 	r.deadline = r.start.Add(lim)
+	current = r
 	return r
 }
+
+var current *Run
 
 // Thorough tells whether the thorough tier was requested.
 func (r *Run) Thorough() bool { return r.Tier == "thorough" }
@@ -279,7 +286,7 @@ func (r *Run) Finish(cov map[string]any) {
 		}
 		v := unknown[0]
 		// a violation is believed only if it reproduces
-		if r.Replayer != nil {
+		if r.Replayer != nil && class != "panic" {
 			for i := 0; i < 5; i++ {
 				bad, _ := r.Replayer(v.Class, v.Case)
 				if !bad {
@@ -288,10 +295,14 @@ func (r *Run) Finish(cov map[string]any) {
 			}
 		}
 		nviol += r.violCount[class]
-		os.MkdirAll(filepath.Join(Root(), "replays"), 0o755)
+		rdir := filepath.Join(Root(), "replays")
+		if rp := os.Getenv("VERIF_REPO_PATH"); rp != "" && rp != "/repo" {
+			rdir = filepath.Join(Root(), "replays", "scratch")
+		}
+		os.MkdirAll(rdir, 0o755)
 		h := fnv.New32a()
 		h.Write([]byte(v.Key))
-		path := filepath.Join(Root(), "replays", fmt.Sprintf("%s-%s-%08x.json", r.ID, class, h.Sum32()))
+		path := filepath.Join(rdir, fmt.Sprintf("%s-%s-%08x.json", r.ID, class, h.Sum32()))
 		out, _ := json.MarshalIndent(struct {
 			Property string `json:"property"`
 			Violation
@@ -336,8 +347,13 @@ func (r *Run) Finish(cov map[string]any) {
 	if err != nil {
 		Fatalf("evidence: %v", err)
 	}
-	os.MkdirAll(filepath.Join(Root(), "evidence"), 0o755)
-	if err := os.WriteFile(filepath.Join(Root(), "evidence", r.ID+".json"), b, 0o644); err != nil {
+	evdir := filepath.Join(Root(), "evidence")
+	if rp := os.Getenv("VERIF_REPO_PATH"); rp != "" && rp != "/repo" {
+		// run against a scratch copy (mutant testing): never overwrite the real evidence
+		evdir = os.Getenv("VERIF_SCRATCH")
+	}
+	os.MkdirAll(evdir, 0o755)
+	if err := os.WriteFile(filepath.Join(evdir, r.ID+".json"), b, 0o644); err != nil {
 		Fatalf("evidence: %v", err)
 	}
 	for _, l := range lines {
@@ -355,7 +371,7 @@ func ParDo(n int, f func(i int)) {
 	}
 	if w <= 1 {
 		for i := 0; i < n; i++ {
-			f(i)
+			safe(i, f)
 		}
 		return
 	}
@@ -370,11 +386,27 @@ func ParDo(n int, f func(i int)) {
 				if i >= n {
 					return
 				}
-				f(i)
+				safe(i, f)
 			}
 		}()
 	}
 	wg.Wait()
+}
+
+// safe runs one work item; a panic that escapes it (from the code under test) is a violation of
+// class "panic", not a crash of the checker.
+func safe(i int, f func(int)) {
+	defer func() {
+		if e := recover(); e != nil {
+			buf := make([]byte, 4096)
+			n := runtime.Stack(buf, false)
+			if current == nil {
+				panic(e)
+			}
+			current.Fail("panic", fmt.Sprintf("item %d: %v", i, e), map[string]any{"item": i}, fmt.Sprintf("panic: %v\n%s", e, buf[:n]))
+		}
+	}()
+	f(i)
 }
 
 // Counter is an atomic counter.
